@@ -328,10 +328,54 @@ def r06c(ctx):
             ctx.report("R06c", f, f.node, f"type {t} not dispatched", f"Python type {t} handled by {ref_name} has no arm in {name}")
 
 
+def r06d(ctx):
+    """Type and value are written together: every path that writes a typed value also writes its value type."""
+    repo = ctx.repo
+    from ..paths import cfg_of, node_of
+    ctx.rule("R06d", "wherever a typed value is written, its value-type attribute is written on the same path", floor=8)
+    VALUE_ATTRS = {"office:value", "office:boolean-value", "office:date-value", "office:time-value", "office:string-value"}
+    for f in repo.all_funcs():
+        if f.kind == "nested":
+            continue
+        tw, vw = [], []
+        for n in walk_no_nested(f.node):
+            if isinstance(n, ast.Call) and call_name(n) == "set_attribute" and n.args:
+                a0 = repo.fold(n.args[0], f.module, f.cls)
+                if isinstance(a0, str) and a0.endswith(":value-type") and a0.split(":")[0] in ("office", "meta"):
+                    tw.append(n)
+                elif a0 in VALUE_ATTRS:
+                    vw.append(n)
+            if isinstance(n, ast.Assign) and isinstance(n.targets[0], ast.Attribute) and n.targets[0].attr == "text" and tw is not None \
+                    and f.name in ("set_user_defined_metadata",):
+                vw.append(n)
+        if not tw or not vw:
+            continue
+        cfg = cfg_of(f)
+        tn = [node_of(cfg, t) for t in tw]
+        for v in vw:
+            vn = node_of(cfg, v)
+            # the type write lies on every path entry -> v, or on every path v -> exit
+            before = cfg.path_avoiding(cfg.entry, vn, tn, follow_exc=False) is None
+            after = cfg.path_avoiding(vn, cfg.exit, tn, follow_exc=False) is None
+            # set_value_and_type: the type write is guarded by `value_type is not None` only, the value writes by `value_type == c`
+            guarded_same = False
+            if not (before or after):
+                from ..paths import structural_guards
+                gt = [ast.unparse(t) for t, pol in structural_guards(tw[0], stop=f.node) if pol]
+                guarded_same = gt == ["value_type is not None"] and any("value_type" in ast.unparse(t) for t, pol in structural_guards(v, stop=f.node))
+            ok = before or after or guarded_same
+            ctx.instance("R06d", f"{f.file}:{f.ident}", f"{norm(v, 50)} is accompanied by the value-type write on every path", ok=ok, nontrivial=True, line=v.lineno)
+            if not ok:
+                ctx.report("R06d", f, v, f"{norm(v, 50)} without value-type on some path",
+                           "a path writes the value but not its value type: overwriting a value of another type leaves the old type, and the value is "
+                           "read back as the wrong Python type")
+
+
 def run(ctx):
     r06a(ctx)
     r06b(ctx)
     r06c(ctx)
+    r06d(ctx)
 
 
 from ..selftest import Seed, unparse_seed  # noqa: E402
@@ -381,6 +425,11 @@ SEEDS = [
     Seed("Cell.value reads numbers as float", "fault", "src/odfdo/cell.py",
          'value_decimal = Decimal(str(self.get_attribute_string("office:value")))', 'value_decimal = Decimal(float(str(self.get_attribute_string("office:value"))))', "R06b"),
     Seed("numbers written with repr of float", "fault", _ET, "            if text is None:\n                text = str(value)\n            value = str(value)", "            if text is None:\n                text = str(value)\n            value = str(float(value))", "R06b"),
+    Seed("meta value type written only for new entries", "fault", "src/odfdo/meta.py",
+         "            self.get_meta_body().append(metadata)\n        metadata.set_attribute(\"meta:value-type\", value_type)\n",
+         "            metadata.set_attribute(\"meta:value-type\", value_type)\n            self.get_meta_body().append(metadata)\n", "R06d"),
+    Seed("Cell.duration setter forgets the type", "fault", "src/odfdo/cell.py",
+         '        self.clear()\n        self.set_attribute("office:value-type", "time")\n', '        self.clear()\n', "R06"),
     unparse_seed(_ET), unparse_seed("src/odfdo/meta.py"), unparse_seed("src/odfdo/cell.py"),
     Seed("reader rewritten with elif chain", "neutral", _ET,
          '        if value_type == "string":\n            value = self.get_attribute("office:string-value")',
